@@ -43,7 +43,7 @@ struct reg {
 	int kind, state, prio; struct ud *ud;
 	qb_loop_timer_handle th; uint64_t lo, hi, dur; int fired_at_iter; uint64_t fired_at;       /* timer */
 	int fd, fd_dispatches, fd_mode, fd_closed;                                                  /* fd */
-	int signo; qb_loop_signal_handle sh; int sig_expected, sig_got;                             /* signal */
+	int signo; int sig_unjudged; int nohandle; qb_loop_signal_handle sh; int sig_expected, sig_got;                             /* signal */
 	long seq;                                                                                   /* job order */
 	int queued_hint;
 };
@@ -138,7 +138,7 @@ static int32_t sig_cb(int32_t sig, void *data)
 	int i = reg_of(data, "signal"); if (i < 0) return 0;
 	n_cb[K_SIG]++;
 	if (R[i].state != ST_LIVE) { vp_violation("loop:signal-callback-after-delete", "signal reg#%d (sig %d)", i, sig); return 0; }
-	if (R[i].signo != sig) vp_violation("loop:signal-callback-wrong-signal", "reg#%d expects %d got %d", i, R[i].signo, sig);
+	if (R[i].signo != sig && !R[i].sig_unjudged) vp_violation("loop:signal-callback-wrong-signal", "reg#%d expects %d got %d", i, R[i].signo, sig);
 	R[i].sig_got++;
 	do_random_ops(1);
 	return 0;
@@ -164,13 +164,16 @@ static void op_add_job(void)
 	if (rc != 0) { vp_violation("loop:job-add-failed", "rc=%d", rc); R[i].state = ST_DELETED; dropud(i); return; }
 	n_adds[K_JOB]++; jobs_recently = 2;
 }
+static long n_nohandle_timers;
 static void op_add_timer(void)
 {
 	int p = (int)vp_u(&rng, 3); int i = newreg(K_TIMER, p); if (i < 0) return;
 	uint64_t d = pick_duration();
 	R[i].dur = d;
 	uint64_t before = vnow;
-	int rc = qb_loop_timer_add(L, (enum qb_loop_priority)p, d, R[i].ud, timer_cb, &R[i].th);
+	/* a quarter of the timers are added without asking for a handle (fire and forget) */
+	R[i].nohandle = vp_chance(&rng, 1, 4); if (R[i].nohandle) n_nohandle_timers++;
+	int rc = qb_loop_timer_add(L, (enum qb_loop_priority)p, d, R[i].ud, timer_cb, R[i].nohandle ? NULL : &R[i].th);
 	uint64_t after = vnow;
 	R[i].lo = before + d < before ? ~0ULL : before + d; R[i].hi = after + d < after ? ~0ULL : after + d;
 	if (getenv("VP_TRACE")) fprintf(stderr, "it%ld add timer reg#%d prio%d dur=%llu th=%llx lo=%llu rc=%d\n", iter, i, p, (unsigned long long)d, (unsigned long long)R[i].th, (unsigned long long)R[i].lo, rc);
@@ -224,6 +227,7 @@ static void op_delete(void)
 		else vp_violation("loop:job-del-failed-on-pending", "job reg#%d rc=%d", i, rc);
 		break;
 	case K_TIMER:
+		if (R[i].nohandle) break;
 		if (vnow > R[i].hi) { n_del_queued++; feat_del_queued = 1; }     /* expired, probably queued for dispatch already */
 		rc = qb_loop_timer_del(L, R[i].th);
 		if (getenv("VP_TRACE")) fprintf(stderr, "it%ld del timer reg#%d th=%llx rc=%d\n", iter, i, (unsigned long long)R[i].th, rc);
@@ -246,7 +250,7 @@ static void op_delete(void)
 static void op_stale(void)
 {
 	/* handles of timers that fired or were deleted (slot possibly reused) must be rejected, harmlessly */
-	int i = pick(K_TIMER, vp_chance(&rng, 1, 2) ? ST_FIRED : ST_DELETED); if (i < 0) return;
+	int i = pick(K_TIMER, vp_chance(&rng, 1, 2) ? ST_FIRED : ST_DELETED); if (i < 0 || R[i].nohandle) return;
 	n_stale++; feat_stale = 1;
 	int rc = qb_loop_timer_del(L, R[i].th);
 	if (getenv("VP_TRACE")) fprintf(stderr, "it%ld STALE del timer reg#%d (state %d) th=%llx rc=%d\n", iter, i, R[i].state, (unsigned long long)R[i].th, rc);
@@ -259,7 +263,7 @@ static void op_stale(void)
 }
 static void op_timer_query(void)
 {
-	int i = pick(K_TIMER, ST_LIVE); if (i < 0) return;
+	int i = pick(K_TIMER, ST_LIVE); if (i < 0 || R[i].nohandle) return;
 	n_timer_queries++;
 	uint64_t rem = qb_loop_timer_expire_time_remaining(L, R[i].th);
 	int run = qb_loop_timer_is_running(L, R[i].th);
@@ -303,12 +307,17 @@ static void op_job_del_foreign(void)
 	int rc = qb_loop_job_del(L, (enum qb_loop_priority)R[i].prio, R[i].ud, timer_cb);
 	if (rc == 0) vp_violation("loop:job-del-removed-something-that-is-not-a-job", "job_del(prio %d, data and function of timer reg#%d) returned 0 (timer %s)", R[i].prio, i, vnow > R[i].hi ? "expired, probably queued" : "pending");
 }
+static long n_sig_renumbered;
 static void op_mod_sig(void)
 {
 	int i = pick(K_SIG, ST_LIVE); if (i < 0) return;
 	int np = (int)vp_u(&rng, 3); n_sig_mods++;
-	int rc = qb_loop_signal_mod(L, (enum qb_loop_priority)np, R[i].signo, R[i].ud, sig_cb, R[i].sh);
-	if (rc == 0) R[i].prio = np; else vp_violation("loop:signal-mod-failed", "signal reg#%d rc=%d", i, rc);
+	/* half of the time the registration also moves to another signal number (possibly one that has registrations already);
+	 * deliveries in flight at that moment cannot be attributed, so this registration's own count is not judged afterwards,
+	 * the other registrations on both numbers are */
+	int ns = vp_chance(&rng, 1, 2) ? SIGS[vp_u(&rng, 4)] : R[i].signo;
+	int rc = qb_loop_signal_mod(L, (enum qb_loop_priority)np, ns, R[i].ud, sig_cb, R[i].sh);
+	if (rc == 0) { R[i].prio = np; if (ns != R[i].signo) { R[i].signo = ns; R[i].sig_unjudged = 1; n_sig_renumbered++; } } else vp_violation("loop:signal-mod-failed", "signal reg#%d rc=%d", i, rc);
 }
 
 static int depth, noop_mask;
@@ -437,7 +446,7 @@ static void ledger_case(long kase)
 	}
 	/* a handler sees the deliveries that are dispatched while it is registered: at least those raised while it
 	 * was registered, at most those plus what was still undispatched when it was added (bounded by all raises) */
-	for (int k = 0; k < nR; k++) if (R[k].kind == K_SIG && R[k].state == ST_LIVE && (R[k].sig_got < R[k].sig_expected || R[k].sig_got > raised_total[R[k].signo & 63])) {
+	for (int k = 0; k < nR; k++) if (R[k].kind == K_SIG && R[k].state == ST_LIVE && !R[k].sig_unjudged && (R[k].sig_got < R[k].sig_expected || R[k].sig_got > raised_total[R[k].signo & 63])) {
 		vp_violation(R[k].sig_got < R[k].sig_expected ? "loop:signal-delivery-lost" : "loop:signal-callback-more-often-than-delivered", "signal reg#%d (sig %d): raised while registered %d, raised in total %d, callbacks %d", k, R[k].signo, R[k].sig_expected, raised_total[R[k].signo & 63], R[k].sig_got); break; }
 	for (int k = 0; k < nR; k++) if (R[k].kind == K_FD && R[k].state == ST_LIVE && R[k].fd_mode != 0 && R[k].fd_dispatches == 0) {
 		uint64_t v; if (read(R[k].fd, &v, 8) == 8) { vp_violation("loop:ready-fd-never-dispatched", "fd reg#%d fd=%d priority %d stayed readable and was never dispatched", k, R[k].fd, R[k].prio); break; } }
@@ -445,7 +454,7 @@ static void ledger_case(long kase)
 	for (int k = 0; k < nR; k++) if (R[k].state == ST_LIVE) {
 		if (R[k].kind == K_SIG) qb_loop_signal_del(L, R[k].sh);
 		if (R[k].kind == K_FD) { qb_loop_poll_del(L, R[k].fd); }
-		if (R[k].kind == K_TIMER) qb_loop_timer_del(L, R[k].th);
+		if (R[k].kind == K_TIMER && !R[k].nohandle) qb_loop_timer_del(L, R[k].th);
 	}
 	for (int k = 0; k < nR; k++) { if (R[k].kind == K_FD && !R[k].fd_closed && R[k].fd >= 0) close(R[k].fd); dropud(k); }
 	qb_loop_destroy(L); L = NULL; draining = 0;
@@ -459,6 +468,7 @@ static void ledger_case(long kase)
 static int fair_src_prio[200], fair_src_kind[200], fair_nsrc; static struct ud *fair_ud[200]; static int fair_fd[200];
 static long fair_total[3]; static long n_item_gaps_judged;
 static void fair_job(void *data);
+static int32_t fair_fdcb(int32_t fd, int32_t rev, void *data);
 static void fair_readd(int s)
 {
 	if (fair_src_kind[s] == 0) qb_loop_job_add(L, (enum qb_loop_priority)fair_src_prio[s], fair_ud[s], fair_job);
@@ -541,7 +551,7 @@ int main(int argc, char **argv)
 	vp_count("deletes_of_probably_queued_items", n_del_queued); vp_count("stale_handle_uses", n_stale); vp_count("fd_numbers_reused", n_fd_reuse);
 	vp_count("ops_from_inside_callbacks", n_inside_ops); vp_count("stops_from_callbacks", n_stop_cb); vp_count("epoll_timeouts_checked", n_epoll_checks);
 	vp_count("negative_return_after_self_delete", feat_neg_after_selfdel); vp_count("duplicate_descriptor_adds_refused", n_dup_adds); vp_count("job_del_naming_a_timer", n_foreign_job_dels);
-	vp_count("signal_priority_changes", n_sig_mods); vp_count("descriptor_priority_change_then_delete", n_mod_then_del); vp_count("descriptor_added_in_retiring_callback", n_readd_in_retire);
+	vp_count("timers_added_without_a_handle", n_nohandle_timers); vp_count("signal_priority_changes", n_sig_mods); vp_count("signal_registrations_moved_to_another_number", n_sig_renumbered); vp_count("descriptor_priority_change_then_delete", n_mod_then_del); vp_count("descriptor_added_in_retiring_callback", n_readd_in_retire);
 	vp_count("timer_queries", n_timer_queries); vp_count("usleep_calls_by_the_loop", n_usleep);
 	vp_finish();
 	return 0;
